@@ -64,6 +64,23 @@ def _propagate(f, transfer, branch, cap=4000):
     return states, truncated
 
 
+_TESTS = {}
+
+
+def _tests_param(g, pname):
+    key = (g.key, pname)
+    if key not in _TESTS:
+        r = False
+        for n in g.cfg.nodes:
+            if n.kind == 'cond' and isinstance(n.ast, dict):
+                t = cond_null_test(n.ast)
+                if t and t[0] == pname:
+                    r = True
+                    break
+        _TESTS[key] = r
+    return _TESTS[key]
+
+
 def _rooted(path, root):
     return path == root or path.startswith(root + '->') or path.startswith(root + '.')
 
@@ -151,6 +168,18 @@ def rule_nc1(prog, rep, units, rid='NC1'):
                 if not isinstance(n.ast, dict):
                     return st
                 s = set(st)
+                # the verdict of a helper that itself examines the pointer's nullness (`if (_is_stray_close(c, parent, ..))`):
+                # the caller branched on a test of the pointer made elsewhere; both outcomes count as "has been tested"
+                for y in walk(n.ast):
+                    if y.get('kind') == 'CallExpr':
+                        g = prog.resolve_name(f.unit, prog.callee_name(y)) if prog.callee_name(y) else None
+                        if g is None or g.body is None or g is f:
+                            continue
+                        for i_, a in enumerate(children(y)[1:]):
+                            ap = access_path(a)
+                            if ap in tested and i_ < len(g.params) and _tests_param(g, g.params[i_].get('name')):
+                                s.discard(('null', ap))
+                                s.add(('nn', ap))
                 t = cond_null_test(n.ast)
                 if t and t[0] not in tested:
                     t = None                 # (`flag == false` also looks like a NULL test: it is an equality test here)
@@ -172,7 +201,7 @@ def rule_nc1(prog, rep, units, rid='NC1'):
                                 return None
                     s.add(('eq', p, k, eq))
                     return frozenset(s)
-                return st
+                return frozenset(s)
 
             def kill(s, root, fields_only=False):
                 out = set()
